@@ -5,7 +5,10 @@
      keys_unique T        (depth, logical_index) identifies an object
      vals_u64 T           uint64_t fields hold uint64_t values
      info_names_nodup T   no info name occurs twice in one object / in the topology infos
-     forallb entry_u64 d  uint64_t fields of the entries hold uint64_t values          *)
+     forallb entry_u64 d  uint64_t fields of the entries hold uint64_t values
+     depths_addressable T every object sits on a level hwloc_get_obj_by_depth addresses
+     0 <= t_nbl T         nb_levels is an unsigned count
+     slots_distinct n d   no two entries of d address the same attribute               *)
 From Coq Require Import List NArith ZArith Bool String Lia.
 From HV Require Import Gen.Tables Attr.Diff Attr.DiffProofs.
 Import ListNotations.
@@ -116,6 +119,41 @@ Proof.
 Qed.
 Print Assumptions dup_info_refuted.
 
+(* for ALL topologies A under H (unique keys, no info name twice in an object,
+   addressable depths) and ALL B: if build(A,B) returns 0 with the list d then
+   apply(A,d) succeeds, and the result A' is indistinguishable from B for
+   diff_build (empty diff), equal to B on every attribute a diff may carry
+   (erase = names, info values, NUMA local memory, everything build reads),
+   has the topology infos of B, and keeps every other field of every object *)
+Theorem apply_build : forall A B d,
+  Hkeys A -> Hnames A -> Hdepths A -> (0 <= t_nbl A)%Z ->
+  diff_build 0 A B = BRet 0 d ->
+  exists A', diff_apply 0 d A = ARet 0 A' /\ diff_build 0 A' B = BRet 0 [] /\
+             erase (t_root A') = erase (t_root B) /\ t_infos A' = t_infos B /\
+             map fxp (attrs A') = map fxp (attrs A).
+Proof. exact apply_build_then_build. Qed.
+Print Assumptions apply_build.
+
+(* for ALL topologies under H and ALL lists whose entries address pairwise
+   different attributes: a list that applies is undone by the same list applied
+   with HWLOC_TOPOLOGY_DIFF_APPLY_REVERSE, and conversely (the hypothesis
+   slots_distinct excludes exactly the class of reverse_restores_refuted) *)
+Theorem reverse_restores_partial : forall d T T1,
+  Hkeys T -> Hnames T -> Hu64 T -> (0 <= t_nbl T)%Z -> forallb entry_u64 d = true ->
+  slots_distinct (t_nbl T) d = true ->
+  (diff_apply 0 d T = ARet 0 T1 -> diff_apply HWLOC_TOPOLOGY_DIFF_APPLY_REVERSE d T1 = ARet 0 T) /\
+  (diff_apply HWLOC_TOPOLOGY_DIFF_APPLY_REVERSE d T = ARet 0 T1 -> diff_apply 0 d T1 = ARet 0 T).
+Proof. exact reverse_restores_distinct. Qed.
+Print Assumptions reverse_restores_partial.
+
+(* entries on different attributes commute (for ALL topologies, entries, directions) *)
+Theorem entries_on_different_attributes_commute : forall b1 e1 b2 e2 T T1 T12,
+  (0 <= t_nbl T)%Z -> slot_eqb (slot_of (t_nbl T) e1) (slot_of (t_nbl T) e2) = false ->
+  apply_one b1 e1 T = Ok T1 -> apply_one b2 e2 T1 = Ok T12 ->
+  exists T2, apply_one b2 e2 T = Ok T2 /\ apply_one b1 e1 T2 = Ok T12.
+Proof. exact step_commute. Qed.
+Print Assumptions entries_on_different_attributes_commute.
+
 (* ---------------- non-vacuity ---------------- *)
 
 Definition ex_T := topo2 "p0" "p1" 1000 2000 [("X", "a"); ("Y", "b")] [] [("T", "1")].
@@ -127,14 +165,16 @@ Definition ex_d := [EAttr 1 0 (DInfo "X" "a" "b"); EAttr (-3) 1 (DSize 0 2000 (2
    info fails at its 6th entry and the topology is restored (the cancel loop
    before fix 751402d left X=b) *)
 Example hypotheses_met :
-  Hkeys ex_T /\ Hnames ex_T /\ Hu64 ex_T /\ forallb entry_u64 ex_d = true /\ tmem_consistent ex_T = true /\
+  Hkeys ex_T /\ Hnames ex_T /\ Hu64 ex_T /\ Hdepths ex_T /\ (0 <= t_nbl ex_T)%Z /\
+  forallb entry_u64 ex_d = true /\ slots_distinct (t_nbl ex_T) (firstn 4 ex_d) = true /\ tmem_consistent ex_T = true /\
   (exists T', diff_apply_forward_cancel 0 ex_d ex_T = ARet (-6) T' /\ T' <> ex_T) /\
   diff_apply 0 ex_d ex_T = ARet (-6) ex_T.
 Proof.
   split; [apply keys_unique_Hkeys; vm_compute; reflexivity|].
   split; [apply info_names_nodup_Hnames; vm_compute; reflexivity|].
   split; [apply vals_u64_Hu64; vm_compute; reflexivity|].
-  split; [vm_compute; reflexivity|]. split; [vm_compute; reflexivity|]. split.
+  split; [apply depths_addressable_Hdepths; vm_compute; reflexivity|]. split; [vm_compute; discriminate|].
+  split; [vm_compute; reflexivity|]. split; [vm_compute; reflexivity|]. split; [vm_compute; reflexivity|]. split.
   - eexists. split; [vm_compute; reflexivity|]. intros E. discriminate E.
   - vm_compute. reflexivity.
 Qed.
